@@ -12,7 +12,7 @@ if not os.path.exists(src + "/patch.diff"):
     src = f"/verif/seeded/{prop}-{n}"  # already kept: re-evaluate from the stored copy
 env = dict(os.environ, GOFLAGS="-mod=mod", GOPROXY="off", GOSUMDB="off", GOTOOLCHAIN="local")
 def run(cmd, cwd, timeout=600):
-    p = subprocess.run(cmd, cwd=cwd, env=env, shell=True, capture_output=True, text=True, timeout=timeout)
+    p = subprocess.run(cmd, cwd=cwd, env=env, shell=True, capture_output=True, text=True, errors="replace", timeout=timeout)
     return p.returncode, (p.stdout + p.stderr)
 demo = open(f"{src}/demo_test.go").read()
 m = re.search(r"//.*?((?:lib|cmd)/[\w/]+)", demo.split("\n")[0])
